@@ -108,7 +108,7 @@ def generate(rng, tier, idx, force=None):
     cfg = {
         "ndirs": rng.choice((1, 2, 2, 3)),
         "fs_checks": rng.random() < 0.8,
-        "collection_size": rng.choice((-1, -1, 1, 2, 4)),
+        "collection_size": rng.choice((-1, -1, 1, 2, 4, 4, 5, 6)),
         "moddir": rng.random() < 0.4,
         "write_bytecode": False,
         "clock_mode": "subsecond" if sub else "whole",
@@ -118,8 +118,9 @@ def generate(rng, tier, idx, force=None):
         "fault_class": rng.random() < 0.35,
     }
     cfg.update(force.get("config", {}))
-    nuri = rng.randint(2, 6)
-    names = ["a.html", "b.html", "sub/c.html", "sub/d.html", "e.html", "sub/deep/f.html"]
+    big = cfg["collection_size"] >= 5  # recency bookkeeping below capacity only shows with many URIs
+    nuri = rng.randint(6, 8) if big else rng.randint(2, 6)
+    names = ["a.html", "b.html", "sub/c.html", "sub/d.html", "e.html", "sub/deep/f.html", "g.html", "sub/h.html"]
     rng.shuffle(names)
     uspecs = []
     for i in range(nuri):
@@ -162,7 +163,7 @@ def generate(rng, tier, idx, force=None):
             ds = [rng.randrange(nd)]
         for d in ds:
             files.append([i, d])
-    nops = rng.randint(4, 40 if tier == "thorough" else 28)
+    nops = rng.randint(4, 40 if (tier == "thorough" or big) else 28)
     adv = ADVANCES_SUB if sub else ADVANCES_WHOLE
     ops = []
     xn = 0
@@ -191,7 +192,7 @@ def generate(rng, tier, idx, force=None):
             ops.append(["break", i, d, rng.choice(("lex", "py", "exec"))])
         elif r < 0.44:
             ops.append(["unreadable", i, d, rng.random() < 0.5])
-        elif r < 0.70:
+        elif r < 0.70 or (big and r < 0.88):
             ops.append(["get", rng.choice(requests)])
         elif r < 0.75:
             ops.append(["has", rng.choice(requests)])
